@@ -52,7 +52,9 @@ CLAIMS = {
                   "program does not depend on the fuel (G1, all 23 evaluator functions), statement sequences compose (seq_compose; seq_compose_upto: both directions, up to fuel), an "
                   "escaping statement cuts the sequence, statement lists that are equivalent up to fuel are interchangeable in every "
                   "statement context (`stmt_ctx_congr_upto`; the fuel-exact form holds exactly under a side condition, with a "
-                  "counterexample otherwise). Tie: the model and the implementation must both reproduce the maintainers' "
+                  "counterexample otherwise) and, at the level of outcomes (stdout, status, stderr), in EVERY context, function bodies and "
+                  "function literals included (`fn_ctx_congr_upto`: a simulation over all 23 evaluator functions through states that are "
+                  "equal up to the code stored in function cells). Tie: the model and the implementation must both reproduce the maintainers' "
                   "expectations of all 336 suite scripts, every `print(…) # x` expectation of the documentation is checked on the "
                   "implementation (model-free), and on generated programs a CLI-confirmed difference between implementation and model "
                   "in stdout / status / diagnostic is a violation with the shrunk program as replay.",
